@@ -383,6 +383,23 @@ fn case_cprune(r: &mut Rng, id: usize, out: &mut String) {
     if r.chance(1, 3) {
         f.infeasible_elimination();
     }
+    // half of the targeted cases: the receiver went through an earlier PRUNED composition with a deep axis tree, after
+    // which the caller replaced the sub-tree grafted below the terminal that was processed LAST by a new terminal
+    // (replace_node); the measured composition then uses a partial operand whose root has a single child.  Whatever
+    // a pruning step remembers about the first run by node index (path conditions, edges) is stale now.
+    if targeted && r.chance(1, 2) {
+        let snapshot = f.clone();
+        let n = f.in_dim();
+        let g0 = gen_axis_tree(r, n);
+        let last = f.tree.terminal_indices().max().unwrap();
+        let ok = catch(AssertUnwindSafe(|| f.compose::<true, false>(&g0))).is_ok();
+        if ok && f.tree.contains(last) && f.tree.get_root_idx() != last {
+            let shift = Array1::from_iter((0..n).map(|_| r.range(-3, 3) as f64));
+            let _ = f.replace_node(last, AffFunc::from_mats(Array2::eye(n), shift)).unwrap();
+        } else if !ok {
+            f = snapshot;
+        }
+    }
     // one case in four: the receiver has a longer history -- an earlier PRUNED composition, after which the caller
     // replaced one decision below the root (replace_node: the subtree goes, a new node with a fresh state arrives, most
     // often under the index just freed) and gave it two terminals.  Everything a later pruning may rely on is still
